@@ -169,6 +169,29 @@ func genC04(env *core.Env, emit func(core.Case)) {
 				Sig: fmt.Sprintf("retry-%s/%s", rc.Kind, rd.Err), Sample: map[string]any{"rule": "retry-" + rc.Kind, "outcome": rd.Err, "alert": fmt.Sprintf("%x", rd.Out), "closed": rd.Closed}})
 			env.Count("retry-" + rc.Kind + "/" + rd.Err)
 		}
+		// R0: what arrives first is not a handshake record, is longer than a record may be, or is not a
+		// ClientHello: the same alert-and-close discipline applies before anything has been parsed
+		for variant := 0; variant < 5; variant++ {
+			plan, key := mkPlan()
+			v := variant
+			classes := [][]string{{"unexpected"}, {"unexpected"}, {"unexpected"}, {"decode"}, {"unexpected", "decode"}}[v]
+			run("firstRecordMalformed", fmt.Sprintf("v%d", v), classes, plan, key, rep%2 == 0, func(rec []byte) []byte {
+				switch v {
+				case 0:
+					return gen.Record(23, 0x0303, rec[5:]) // application_data first
+				case 1:
+					return gen.Record(20, 0x0303, []byte{1}) // change_cipher_spec first
+				case 2:
+					return gen.Record(21, 0x0303, []byte{1, 0}) // an alert first
+				case 3:
+					return gen.Cat([]byte{22, 3, 1, 0x41, 0x01}, rec[5:]) // a record length over 2^14+256
+				default:
+					b := slices.Clone(rec)
+					b[5] = 2 // a ServerHello where the ClientHello should be
+					return b
+				}
+			})
+		}
 		// R4 sniNotPublicName: another name, a near miss, another spelling of the same name, an empty
 		// host name, no server_name extension at all
 		for variant := 0; variant < 6; variant++ {
